@@ -60,7 +60,8 @@ class ChangeForStep(RewritePattern):
 
         # otherwise, replace op with a new one that uses step 1 and ub = ub // step
         new_step = ConstantOp.from_int_and_width(1, IndexType())
-        new_ub = ConstantOp.from_int_and_width(ub // step, IndexType())
+        # number of iterations: ceil(ub / step)
+        new_ub = ConstantOp.from_int_and_width(-(-ub // step), IndexType())
         new_for = ForOp(
             op.lb,
             new_ub,
